@@ -12,14 +12,16 @@ def consts(events=(1,), nodes=1, filters=0, enq=3, disp=0, depth=5, ordered=Fals
 
 
 def world(name, obj=1, threading=0, key=0, arg=0, mode=0, map_=0, filt=0, order=0, callback=0, fill="0xA5", fraction=1.0,
-          compiler="g++", std="c++11", opt="-O1", only_tags=None, sanitize=True, cancont=0, mixins=0):
+          compiler="g++", std="c++11", opt="-O1", only_tags=None, sanitize=True, cancont=0, mixins=0, moveonly=0):
     w = {"name": name, "source": "dq_interp.cpp",
          "defines": ["W_OBJ=%d" % obj, "W_THREADING=%d" % threading, "W_KEY=%d" % key, "W_ARG=%d" % arg, "W_MODE=%d" % mode, "W_MAP=%d" % map_,
-                     "W_FILTER=%d" % filt, "W_ORDER=%d" % order, "W_CALLBACK=%d" % callback, "W_FILL=%s" % fill] + (["W_CANCONT=1"] if cancont else []) + (["W_MIXINS=%d" % mixins] if mixins else []),
+                     "W_FILTER=%d" % filt, "W_ORDER=%d" % order, "W_CALLBACK=%d" % callback, "W_FILL=%s" % fill] + (["W_CANCONT=1"] if cancont else []) + (["W_MIXINS=%d" % mixins] if mixins else []) + (["W_MOVEONLY=1"] if moveonly else []),
          "fraction": fraction, "compiler": compiler, "std": std, "opt": opt, "sanitize": sanitize,
          "trace_env": {"ORDER": str(order), "CANCONT": str(cancont), "VETO": {0: "0", 1: "0", 2: "1", 3: "2", 4: "1"}[mixins]}}
     if only_tags:
         w["only_tags"] = only_tags
+    if moveonly:
+        w["without_ops"] = ["pk"]       # peekEvent copies the arguments
     return w
 
 
@@ -44,6 +46,7 @@ def c05(tier, seed):
               world("dq_single_val_getevent_str", threading=0, arg=0, mode=3, key=1, fraction=0.3),     # key derived by a getEvent policy from a movable argument
               world("dq_multi_cref_str", threading=1, arg=1, key=1, fill="0xFF", fraction=0.3),
               world("dq_multi_val_getevent_decoy", threading=1, arg=0, mode=5, key=0, fraction=0.15),     # enqueue(first, args...) through a policy that ignores `first`
+              world("dq_multi_cref_moveonly", threading=1, arg=1, moveonly=1, fraction=0.3, fill="0xFF"),       # move-only argument type
               world("dq_spin_val_hash", threading=2, arg=0, key=3, fill="0x00", fraction=0.15, callback=1)]
     if not quick:
         worlds += [world("dq_multi_ref_incl_clang17", threading=1, arg=2, mode=1, key=2, compiler="clang++", std="c++17", opt="-O2", fraction=0.2, only_tags=["nest", "recycle"]),
